@@ -48,6 +48,8 @@ type KnownPred struct {
 	Kind  string // input | input-prefix | input-contains | any
 	Bytes []byte
 	Arg   map[string]int64 // scalar var equalities
+	Ge    map[string]int64 // scalar var >= (signed)
+	Le    map[string]int64 // scalar var <= (signed)
 	Eq    [][2]int         // pairs of byte positions of Tag that must be equal
 	Ne    [][2]int         // pairs of byte positions of Tag that must differ
 }
@@ -776,6 +778,20 @@ func (x *Explorer) knownTerm(k KnownPred) *Term {
 			res = BAnd(res, Cmp(OpEq, t, BV(uint64(val), t.W)))
 		}
 	}
+	for name, val := range k.Ge {
+		t, ok := x.scalars[name]
+		if !ok || t.W == 0 || t.F {
+			return nil
+		}
+		res = BAnd(res, Cmp(OpSle, BV(uint64(val), t.W), t))
+	}
+	for name, val := range k.Le {
+		t, ok := x.scalars[name]
+		if !ok || t.W == 0 || t.F {
+			return nil
+		}
+		res = BAnd(res, Cmp(OpSle, t, BV(uint64(val), t.W)))
+	}
 	if len(k.Eq)+len(k.Ne) > 0 {
 		in, ok := x.inputs[k.Tag]
 		if !ok {
@@ -858,6 +874,22 @@ func (x *Explorer) witnessInputs(ev *Evaluator) map[string]string {
 		}
 	}
 	return out
+}
+
+// DefineBits returns a fresh 64-bit variable constrained to be the IEEE bit pattern of the
+// (non-NaN) float term f: math.Float64bits on a symbolic float.
+func (x *Explorer) DefineBits(f *Term) *Term {
+	if f.IsConst() {
+		return BV(f.K, 64)
+	}
+	v := x.freshVar("f64bits", 64, false)
+	x.ev.M[v.Name] = x.ev.Eval(f)
+	x.ev = NewEvaluator(x.ev.M)
+	if x.P != nil {
+		x.ev.Prime(x.P.UFApps)
+	}
+	x.assertPC(FSame(FFromBits(v), f))
+	return v
 }
 
 func (x *Explorer) freshVar(tag string, w uint8, f bool) *Term {
